@@ -1272,3 +1272,154 @@ Proof.
     exists b1, lo'. cbn [length nth_error]. repeat split; try assumption.
     rewrite Lo. destruct (length b_lo) eqn:EL; [reflexivity|reflexivity].
 Qed.
+
+(* =========================================================== UTF-8: valid = concatenation of shortest encodings of scalar values *)
+Inductive Valid : str -> Prop :=
+| V_nil : Valid []
+| V_step s k : utf8_step s = k -> k <> 0 -> Valid (skipn (Z.to_nat k) s) -> Valid s.
+
+Lemma valid_fuel_iff : forall fuel s, (length s <= fuel)%nat -> (utf8_valid_fuel fuel s = true <-> Valid s).
+Proof.
+  induction fuel as [|f IH]; intros s Hl.
+  - destruct s; [split; [constructor|reflexivity]|cbn in Hl; lia].
+  - destruct s as [|c r]; [split; [constructor|reflexivity]|]. cbn [utf8_valid_fuel].
+    set (k := utf8_step (c :: r)). destruct (Z.eqb_spec k 0) as [E|E].
+    + split; [discriminate|]. intros H. inversion H; subst. unfold k in E. contradiction.
+    + destruct (utf8_step_count (c :: r) k eq_refl E) as (R & L & _).
+      assert (Hl' : (length (skipn (Z.to_nat k) (c :: r)) <= f)%nat) by (rewrite skipn_length; cbn [length] in *; lia).
+      rewrite (IH _ Hl'). split.
+      * intros H. apply (V_step _ k); [reflexivity|exact E|exact H].
+      * intros H. inversion H; subst. exact H2.
+Qed.
+
+Lemma utf8_valid_Valid s : utf8_valid s = true <-> Valid s.
+Proof. unfold utf8_valid. apply valid_fuel_iff. lia. Qed.
+
+Lemma in_rng_t lo hi c : lo <= c <= hi -> in_rng lo hi c = true.
+Proof. intros H. unfold in_rng. destruct (Z.leb_spec lo c), (Z.leb_spec c hi); try reflexivity; lia. Qed.
+Lemma in_rng_f lo hi c : c < lo \/ hi < c -> in_rng lo hi c = false.
+Proof. intros H. unfold in_rng. destruct (Z.leb_spec lo c), (Z.leb_spec c hi); try reflexivity; lia. Qed.
+Lemma is_cont_rng c : is_cont c = true -> 128 <= c <= 191.
+Proof. apply in_rng_true. Qed.
+
+Lemma divmod64 a q r : 0 <= r < 64 -> a = 64 * q + r -> a / 64 = q /\ a mod 64 = r.
+Proof. intros Hr E. split; [symmetry; apply (Z.div_unique a 64 q r); lia|symmetry; apply (Z.mod_unique a 64 q r); lia]. Qed.
+
+Lemma utf8_step_decode s k : utf8_step s = k -> k <> 0 ->
+  exists c, is_scalar c = true /\ s = utf8_encode1 c ++ skipn (Z.to_nat k) s.
+Proof.
+  unfold utf8_step. destruct s as [|c0 r]; [intros <- H; congruence|].
+  destruct (in_rng 0 127 c0) eqn:A0.
+  { intros <- _. apply in_rng_true in A0. exists c0. split.
+    - unfold is_scalar. rewrite in_rng_t by lia. reflexivity.
+    - unfold utf8_encode1. destruct (Z.ltb_spec c0 128); [reflexivity|lia]. }
+  destruct (in_rng 194 223 c0) eqn:A1.
+  { destruct r as [|c1 r]; [intros <- H; congruence|]. destruct (is_cont c1) eqn:C1; [|intros <- H; congruence].
+    intros <- _. apply in_rng_true in A1. apply is_cont_rng in C1.
+    set (c := (c0 - 192) * 64 + (c1 - 128)). exists c. split.
+    - unfold is_scalar. rewrite in_rng_t by (unfold c; lia). reflexivity.
+    - unfold utf8_encode1. destruct (Z.ltb_spec c 128); [unfold c in *; lia|].
+      destruct (Z.ltb_spec c 2048); [|unfold c in *; lia].
+      destruct (divmod64 c (c0 - 192) (c1 - 128)) as [D M]; [lia|unfold c; lia|].
+      rewrite D, M. replace (192 + (c0 - 192)) with c0 by lia. replace (128 + (c1 - 128)) with c1 by lia. reflexivity. }
+  destruct (in_rng 224 239 c0) eqn:A2.
+  { destruct r as [|c1 [|c2 r]]; try (intros <- H; congruence).
+    match goal with |- (if ?c then _ else _) = _ -> _ => destruct c eqn:C end; [|intros <- H; congruence].
+    intros <- _. apply in_rng_true in A2. apply andb_true_iff in C. destruct C as [C1 C2].
+    apply in_rng_true in C1. apply is_cont_rng in C2.
+    set (c := (c0 - 224) * 4096 + (c1 - 128) * 64 + (c2 - 128)).
+    assert (R1 : 128 <= c1 <= 191) by (destruct (c0 =? 224), (c0 =? 237); lia).
+    assert (Hlo : 2048 <= c) by (unfold c; destruct (Z.eqb_spec c0 224); lia).
+    assert (Hhi : c < 65536) by (unfold c; lia).
+    assert (Hs : c <= 55295 \/ 57344 <= c) by (unfold c; destruct (Z.eqb_spec c0 237); lia).
+    exists c. split.
+    - unfold is_scalar. destruct Hs; [rewrite in_rng_t by lia; reflexivity|].
+      rewrite (in_rng_t 57344) by lia. apply orb_true_r.
+    - unfold utf8_encode1. destruct (Z.ltb_spec c 128); [lia|]. destruct (Z.ltb_spec c 2048); [lia|].
+      destruct (Z.ltb_spec c 65536); [|lia].
+      destruct (divmod64 c ((c0 - 224) * 64 + (c1 - 128)) (c2 - 128)) as [D M]; [lia|unfold c; lia|].
+      destruct (divmod64 (c / 64) (c0 - 224) (c1 - 128)) as [D2 M2]; [lia|lia|].
+      replace (c / 4096) with (c / 64 / 64) by (rewrite Z.div_div by lia; reflexivity).
+      rewrite D2, M2, M. replace (224 + (c0 - 224)) with c0 by lia. replace (128 + (c1 - 128)) with c1 by lia.
+      replace (128 + (c2 - 128)) with c2 by lia. reflexivity. }
+  destruct (in_rng 240 244 c0) eqn:A3.
+  { destruct r as [|c1 [|c2 [|c3 r]]]; try (intros <- H; congruence).
+    match goal with |- (if ?c then _ else _) = _ -> _ => destruct c eqn:C end; [|intros <- H; congruence].
+    intros <- _. apply in_rng_true in A3. apply andb_true_iff in C. destruct C as [C C3].
+    apply andb_true_iff in C. destruct C as [C1 C2]. apply in_rng_true in C1. apply is_cont_rng in C2. apply is_cont_rng in C3.
+    set (c := (c0 - 240) * 262144 + (c1 - 128) * 4096 + (c2 - 128) * 64 + (c3 - 128)).
+    assert (R1 : 128 <= c1 <= 191) by (destruct (c0 =? 240), (c0 =? 244); lia).
+    assert (Hlo : 65536 <= c) by (unfold c; destruct (Z.eqb_spec c0 240); lia).
+    assert (Hhi : c <= 1114111) by (unfold c; destruct (Z.eqb_spec c0 244); lia).
+    exists c. split.
+    - unfold is_scalar. rewrite (in_rng_t 57344) by lia. apply orb_true_r.
+    - unfold utf8_encode1. destruct (Z.ltb_spec c 128); [lia|]. destruct (Z.ltb_spec c 2048); [lia|].
+      destruct (Z.ltb_spec c 65536); [lia|].
+      destruct (divmod64 c ((c0 - 240) * 4096 + (c1 - 128) * 64 + (c2 - 128)) (c3 - 128)) as [D M]; [lia|unfold c; lia|].
+      destruct (divmod64 (c / 64) ((c0 - 240) * 64 + (c1 - 128)) (c2 - 128)) as [D2 M2]; [lia|lia|].
+      destruct (divmod64 (c / 64 / 64) (c0 - 240) (c1 - 128)) as [D3 M3]; [lia|lia|].
+      replace (c / 262144) with (c / 64 / 64 / 64) by (rewrite !Z.div_div by lia; reflexivity).
+      replace (c / 4096) with (c / 64 / 64) by (rewrite Z.div_div by lia; reflexivity).
+      rewrite D3, M3, M2, M. replace (240 + (c0 - 240)) with c0 by lia. replace (128 + (c1 - 128)) with c1 by lia.
+      replace (128 + (c2 - 128)) with c2 by lia. replace (128 + (c3 - 128)) with c3 by lia. reflexivity. }
+  intros <- H; congruence.
+Qed.
+
+Lemma utf8_step_encode c rest : is_scalar c = true ->
+  utf8_step (utf8_encode1 c ++ rest) = Z.of_nat (length (utf8_encode1 c)) /\ (1 <= length (utf8_encode1 c))%nat.
+Proof.
+  intros Hs. unfold is_scalar in Hs. apply orb_true_iff in Hs.
+  assert (Hc : 0 <= c <= 55295 \/ 57344 <= c <= 1114111) by (destruct Hs as [H|H]; apply in_rng_true in H; lia). clear Hs.
+  unfold utf8_encode1. destruct (Z.ltb_spec c 128).
+  { cbn [app length utf8_step]. rewrite in_rng_t by lia. split; [reflexivity|lia]. }
+  pose proof (Z.div_mod c 64 ltac:(lia)) as E1. pose proof (Z.mod_pos_bound c 64 ltac:(lia)) as B1.
+  destruct (Z.ltb_spec c 2048).
+  { cbn [app length utf8_step]. rewrite (in_rng_f 0 127), (in_rng_t 194 223), is_cont_true by lia. split; [reflexivity|lia]. }
+  pose proof (Z.div_mod (c / 64) 64 ltac:(lia)) as E2. pose proof (Z.mod_pos_bound (c / 64) 64 ltac:(lia)) as B2.
+  assert (D2 : c / 4096 = c / 64 / 64) by (rewrite Z.div_div by lia; reflexivity).
+  destruct (Z.ltb_spec c 65536).
+  { cbn [app length utf8_step]. rewrite D2.
+    rewrite (in_rng_f 0 127), (in_rng_f 194 223), (in_rng_t 224 239), (is_cont_true (128 + c mod 64)) by lia.
+    assert (G : in_rng (if 224 + c / 64 / 64 =? 224 then 160 else 128) (if 224 + c / 64 / 64 =? 237 then 159 else 191)
+                       (128 + (c / 64) mod 64) = true).
+    { apply in_rng_t. destruct (Z.eqb_spec (224 + c / 64 / 64) 224), (Z.eqb_spec (224 + c / 64 / 64) 237); lia. }
+    rewrite G. split; [reflexivity|lia]. }
+  pose proof (Z.div_mod (c / 64 / 64) 64 ltac:(lia)) as E3. pose proof (Z.mod_pos_bound (c / 64 / 64) 64 ltac:(lia)) as B3.
+  assert (D3 : c / 262144 = c / 64 / 64 / 64) by (rewrite !Z.div_div by lia; reflexivity).
+  cbn [app length utf8_step]. rewrite D3, D2.
+  rewrite (in_rng_f 0 127), (in_rng_f 194 223), (in_rng_f 224 239), (in_rng_t 240 244),
+    (is_cont_true (128 + c mod 64)), (is_cont_true (128 + (c / 64) mod 64)) by lia.
+  assert (G : in_rng (if 240 + c / 64 / 64 / 64 =? 240 then 144 else 128) (if 240 + c / 64 / 64 / 64 =? 244 then 143 else 191)
+                     (128 + (c / 64 / 64) mod 64) = true).
+  { apply in_rng_t. destruct (Z.eqb_spec (240 + c / 64 / 64 / 64) 240), (Z.eqb_spec (240 + c / 64 / 64 / 64) 244); lia. }
+  rewrite G. split; [reflexivity|lia].
+Qed.
+
+Lemma skipn_app_exact {A} (a b : list A) : skipn (length a) (a ++ b) = b.
+Proof. induction a; cbn; [reflexivity|assumption]. Qed.
+
+Lemma utf8_valid_iff_encoding_lemma s :
+  utf8_valid s = true <-> exists cs, forallb is_scalar cs = true /\ s = utf8_encode cs.
+Proof.
+  rewrite utf8_valid_Valid. split.
+  - induction 1 as [|s k Hk Hne Hv IH].
+    + exists []. split; reflexivity.
+    + destruct IH as (cs & Hcs & Es). destruct (utf8_step_decode s k Hk Hne) as (c & Hc & Ec).
+      exists (c :: cs). cbn [forallb utf8_encode flat_map]. rewrite Hc, Hcs. split; [reflexivity|].
+      unfold utf8_encode in Es. rewrite <- Es. exact Ec.
+  - intros (cs & Hcs & ->). induction cs as [|c cs IH]; [constructor|].
+    cbn [forallb] in Hcs. apply andb_true_iff in Hcs. destruct Hcs as [Hc Hcs].
+    cbn [utf8_encode flat_map]. destruct (utf8_step_encode c (flat_map utf8_encode1 cs) Hc) as [E L].
+    apply (V_step _ (Z.of_nat (length (utf8_encode1 c)))); [exact E|lia|].
+    rewrite Nat2Z.id, skipn_app_exact. apply IH. exact Hcs.
+Qed.
+
+Lemma rune_count_encode_lemma cs : forallb is_scalar cs = true -> rune_count (utf8_encode cs) = Z.of_nat (length cs).
+Proof.
+  intros H. rewrite rune_count_valid by (apply utf8_valid_iff_encoding_lemma; exists cs; split; [exact H|reflexivity]).
+  induction cs as [|c cs IH]; [reflexivity|].
+  cbn [forallb] in H. apply andb_true_iff in H. destruct H as [Hc Hcs].
+  cbn [utf8_encode flat_map]. destruct (utf8_step_encode c (flat_map utf8_encode1 cs) Hc) as [E L].
+  destruct (utf8_step_count _ _ E ltac:(lia)) as (_ & _ & C). rewrite C, Nat2Z.id, skipn_app_exact.
+  unfold utf8_encode in IH. rewrite (IH Hcs). cbn [length]. lia.
+Qed.
